@@ -55,6 +55,12 @@ pub fn eval(op: &str, a: &[&str]) -> Option<String> {
             let _ = candid::IDLArgs::from_bytes_with_types_with_config(&b, &candid::TypeEnv::new(), &[candid::types::TypeInner::Reserved.into()], &cfg);
             Some("ok".into())
         }
+        "p.c01.same_name" => {
+            // on this thread (whatever ran before) and on a fresh one
+            let here = native::same_name();
+            let fresh = std::thread::spawn(native::same_name).join().unwrap_or("FAIL panic".into());
+            Some(if here == "ok" { fresh } else { here })
+        }
         "p.c06.refshare" => {
             // a func reference whose argument type is shared over a[0] levels (every level mentions the next one twice), decoded at a
             // separately spelled, equal expected type under a decoding quota: the work is bounded by the quota, not by 2^levels
@@ -247,6 +253,7 @@ pub fn generate(prop: &str, thorough: bool, r: &mut Rng, em: &mut Emit) {
     }
     match prop {
         "C01" => {
+            em.stat("same-named-local-types"); em.case_nt("p.c01.same_name", &["-".to_string()], true);
             for (name, v, m) in &pool {
                 let (env, t) = native::types(name).unwrap();
                 let tn = tn_arg(name); let h = sx::hex(m);
